@@ -7,10 +7,19 @@ use crate::common::*;
 /// every alloc-feature operation, selected symbolically; everything is dropped before the harness ends
 pub fn ops<T: Sym, N: ArrayLength, const R: usize>() {
     let n = N::USIZE;
-    let op = any_upto(9);
+    let op = any_upto(10);
     kani_cover!(op == 9);
     kani_cover!(op == 0);
+    kani_cover!(op == 10);
     match op {
+        10 => {
+            // a source whose size_hint lower bound is 0 but which yields exactly N items (filter)
+            let r = GenericArray::<T, N>::try_boxed_from_iter((0..n).filter(|_| true).map(|_| T::sym()));
+            assert!(r.is_ok());
+            let b: Box<GenericArray<T, N>> = (0..n).filter(|_| true).map(|_| T::sym()).collect();
+            drop(r);
+            drop(b);
+        }
         0 => { let b = Box::<GenericArray<T, N>>::generate(|_| T::sym()); drop(b); }
         1 => { let b: Box<GenericArray<T, N>> = (0..n).map(|_| T::sym()).collect(); drop(b); }
         2 => {
@@ -143,6 +152,75 @@ pub mod failing {
     }
 }
 
+// ---- alignment: Kani's __rust_dealloc compares sizes only; these stubs also remember and compare the alignment ----------------
+pub mod aligned {
+    use crate::common::*;
+    use core::alloc::Layout;
+    pub static mut BLOCKS: [(usize, usize, usize); 6] = [(0, 0, 0); 6];
+    #[cfg(kani)]
+    extern "Rust" {
+        fn __rust_alloc(size: usize, align: usize) -> *mut u8;
+        fn __rust_dealloc(ptr: *mut u8, size: usize, align: usize);
+    }
+    #[cfg(kani)]
+    pub unsafe fn recording_alloc(layout: Layout) -> *mut u8 {
+        let p = __rust_alloc(layout.size(), layout.align());
+        let mut i = 0;
+        while i < 6 {
+            if BLOCKS[i].0 == 0 { BLOCKS[i] = (p as usize, layout.size(), layout.align()); break; }
+            i += 1;
+        }
+        assert!(i < 6, "harness block table full");
+        p
+    }
+    /// `Global::deallocate` goes through the private `alloc::alloc::dealloc_nonnull` in this std; the public `dealloc` forwards to it too
+    #[cfg(kani)]
+    pub unsafe fn checking_dealloc(nn: core::ptr::NonNull<u8>, layout: Layout) {
+        let ptr = nn.as_ptr();
+        let mut i = 0;
+        while i < 6 {
+            if BLOCKS[i].0 == ptr as usize {
+                assert!(BLOCKS[i].1 == layout.size(), "block released with a different size than it was requested with");
+                assert!(BLOCKS[i].2 == layout.align(), "block released with a different alignment than it was requested with");
+                BLOCKS[i] = (0, 0, 0);
+            }
+            i += 1;
+        }
+        // blocks that reached us through realloc / alloc_zeroed are not in the table: nothing to compare for them
+        __rust_dealloc(ptr, layout.size(), layout.align());
+    }
+    /// element types of equal size and different alignment, through every boxed operation that builds one array from another
+    pub fn ops_align<T, N: ArrayLength, const R: usize>() {
+        let n = N::USIZE;
+        let op = any_upto(3);
+        kani_cover!(op == 3);
+        match op {
+            0 => { let a = Box::<GenericArray<[u8; 8], N>>::generate(|_| [any_u8(); 8]); let m: Box<GenericArray<u64, N>> = a.map(|x| u64::from_le_bytes(x)); drop(m); }
+            1 => { let a = Box::<GenericArray<u64, N>>::generate(|_| any_u64()); let m: Box<GenericArray<[u8; 8], N>> = a.map(|x| x.to_le_bytes()); drop(m); }
+            2 => { let a = Box::<GenericArray<[u16; 2], N>>::generate(|_| [any_u16(); 2]); let b = Box::<GenericArray<u32, N>>::generate(|_| any_u32());
+                   let z: Box<GenericArray<u32, N>> = a.zip(b, |x, y| (x[0] as u32) ^ y); drop(z); }
+            _ => { let a: Box<GenericArray<A16, N>> = Box::<GenericArray<A16, N>>::generate(|_| A16(any_u8())); let v = a.into_vec(); let b = GenericArray::<A16, N>::try_from_vec(v).ok().unwrap(); drop(b); }
+        }
+        kani_cover!(unsafe { BLOCKS[0].0 } == 0, "the first recorded block was released through the checked path");
+    }
+}
+macro_rules! c16_align_lattice {
+    ($($name:ident: $N:ty, $u:literal;)*) => {
+        pub mod ops_align {
+            #[cfg(kani)]
+            use super::super::aligned::{checking_dealloc, recording_alloc};
+            use super::super::aligned::ops_align;
+            use crate::common::*;
+            $(
+                #[cfg_attr(kani, kani::proof)]
+                #[cfg_attr(kani, kani::unwind($u))]
+                #[cfg_attr(kani, kani::stub(alloc::alloc::alloc, recording_alloc))]
+                #[cfg_attr(kani, kani::stub(alloc::alloc::dealloc_nonnull, checking_dealloc))]
+                pub fn $name() { ops_align::<(), $N, 0>() }
+            )*
+        }
+    };
+}
 macro_rules! c16_lattice {
     ($body:ident; $($name:ident: $T:ty, $N:ty, $u:literal;)*) => {
         pub mod $body {
@@ -173,9 +251,11 @@ pub mod q {
     c16_lattice! { ops; u64_n0: u64, U0, 5; u64_n1: u64, U1, 6; u64_n3: u64, U3, 8; unit_n0: (), U0, 5; unit_n3: (), U3, 8; }
     c16_lattice! { ops_payload; n0: (), U0, 5; n1: (), U1, 6; n3: (), U3, 8; }
     c16_fail_lattice! { u64_n0: u64, U0, 5; u64_n1: u64, U1, 6; u64_n3: u64, U3, 8; unit_n3: (), U3, 8; }
+    c16_align_lattice! { n1: U1, 8; n3: U3, 10; }
 }
 pub mod t {
     c16_lattice! { ops; u64_n2: u64, U2, 7; u64_n5: u64, U5, 10; u8_n8: u8, U8, 13; unit_n1: (), U1, 6; pad_n3: (u8, u16), U3, 8; a16_n2: A16, U2, 7; }
     c16_lattice! { ops_payload; n2: (), U2, 7; n4: (), U4, 9; n5: (), U5, 10; }
     c16_fail_lattice! { u64_n2: u64, U2, 7; u64_n5: u64, U5, 10; u8_n8: u8, U8, 13; unit_n0: (), U0, 5; }
+    c16_align_lattice! { n2: U2, 9; n4: U4, 11; }
 }
